@@ -4,6 +4,7 @@ Case format (DESIGN Appendix A):
   {"weights": [w...], "ops": [op...]}
   op = ["s", asset, delta, priority, [inner op...]] | ["p", a] | ["u", a] | ["c", a] | ["past", delta]
      | ["step"] | ["run", d] | ["again", i]  (second execute() of an executed event)
+     | ["sa", asset, absolute_time, priority, [inner op...]]  (float-noise profile: due time given as a literal)
 Inner ops (performed by the event's action when it executes) are the same minus step/run.
 
 Oracles (ids):
@@ -67,12 +68,21 @@ class E1:
     def apply(self, op, inner=False):
         k = op[0]
         env = self.env
+        if k == 'sa':
+            # absolute due time (a decimal literal, not a float sum); skipped if it lies in the past
+            if op[2] < env.now:
+                return
+            op = ['s', op[1], op[2], op[3], op[4]]
+            k = 's'
+            absolute = True
+        else:
+            absolute = False
         if k == 's':
             _, asset, delta, prio, prog = op
             r = Rec()
             r.id = len(self.recs)
             r.asset, r.prio, r.prog = asset, prio, prog
-            r.time = r.orig = env.now + delta
+            r.time = r.orig = delta if absolute else env.now + delta
             r.state, r.cancelled, r.paused_at, r.runs, r.was_paused = 'q', False, None, 0, False
             r.inner = inner
             r.born = env.now
